@@ -312,12 +312,12 @@ class ConcRun(object):
             u = rng.choice(ex)
             g.focus_p = [u]
             kinds = ['inv_put_all', 'inv_put_all', 'inv_put_one', 'rpt_put',
-                     'rpt_put', 'agg_put', 'reshape', 'inv_post',
+                     'rpt_put', 'agg_put', 'reshape', 'reshape', 'inv_post',
                      'inv_delete_one', 'inv_delete_all', 'rpt_delete',
                      'alloc_put', 'alloc_post']
             if rng.random() < 0.3:
                 # same kind twice: the classic same-generation race
-                k0 = rng.choice(kinds[:7])
+                k0 = rng.choice(kinds[:8])
                 want = [k0] * n
             else:
                 want = [rng.choice(kinds) for _ in range(n)]
@@ -373,6 +373,52 @@ class ConcRun(object):
                 if op is None:
                     return None
                 batch.append(op)
+        elif self.focus == 'reshape':
+            # the reshaper - the longest write path - racing a guarded write
+            # or a claim on one of its providers
+            have = sorted(set(p for (p, rc) in m.inventories if p in ex))
+            if not have:
+                return None
+            u = rng.choice(have)
+            op = None
+            for _ in range(12):
+                g.focus_p = [u] if rng.random() < 0.7 else None
+                g.versions = ['1.30', '1.34', '1.38', '1.39']
+                old_rate = g.invalid_rate
+                g.invalid_rate = 0.05
+                cand = g.g_reshape(m)
+                g.invalid_rate = old_rate
+                g.versions = None
+                if cand is not None and u in cand['b']['inventories']:
+                    op = cand
+                    break
+            if op is None:
+                return None
+            op['kind'] = 'reshape'
+            batch.append(op)
+            kinds = ['inv_put_all', 'inv_put_one', 'rpt_put', 'rpt_put',
+                     'agg_put', 'alloc_put', 'alloc_post', 'reshape']
+            allC = g.C
+            for i in range(1, n):
+                k = rng.choice(kinds)
+                op2 = None
+                for _ in range(10):
+                    g.focus_p = [u]
+                    if k == 'agg_put':
+                        g.versions = ['1.19', '1.28', '1.39']
+                    elif k in ('alloc_put', 'alloc_post', 'reshape'):
+                        g.versions = ['1.30', '1.34', '1.38', '1.39']
+                    op2 = getattr(g, 'g_' + k)(m)
+                    g.versions = None
+                    if op2 is not None:
+                        break
+                    k = rng.choice(kinds)
+                if op2 is None:
+                    return None
+                op2.setdefault('kind', k)
+                batch.append(op2)
+            if rng.random() < 0.5:
+                batch.reverse()
         elif self.focus == 'multi':
             # a claim spanning two providers racing a write to one of them:
             # the server-side retry loop of replace_all() and the
